@@ -7,7 +7,25 @@ import (
 	"fmt"
 	"os"
 	"sync"
+	"sync/atomic"
 )
+
+// vpState gives every queue an identity that is not reused (addresses are, after a queue is garbage
+// collected): the id is assigned at the first event of the queue.
+type vpState struct {
+	id atomic.Uint64
+}
+
+var vpQueueSeq atomic.Uint64
+
+// VerifQueueID returns the identity of a queue for trace recording.
+func VerifQueueID[T any](q *Queue[T]) uint64 {
+	if id := q.vp.id.Load(); id != 0 {
+		return id
+	}
+	q.vp.id.CompareAndSwap(0, vpQueueSeq.Add(1))
+	return q.vp.id.Load()
+}
 
 // Verification hooks, only compiled with the verif build tag.
 //
@@ -26,13 +44,22 @@ func vpEvent[T any](kind string, q *Queue[T], e *T) {
 	if f := VerifEvent; f != nil {
 		f(kind, q, e, q.max, len(q.active), len(q.queued), true)
 	}
+	if f := verifRecord; f != nil {
+		f(kind, VerifQueueID(q), fmt.Sprintf("%p", e), q.max, len(q.active), len(q.queued))
+	}
 }
 
 func vpEventU[T any](kind string, q *Queue[T], e *T) {
 	if f := VerifEvent; f != nil {
 		f(kind, q, e, q.max, -1, -1, false)
 	}
+	if f := verifRecord; f != nil {
+		f(kind, VerifQueueID(q), fmt.Sprintf("%p", e), q.max, -1, -1)
+	}
 }
+
+// verifRecord is the file recorder installed by init when VERIF_PQ_TRACE is set.
+var verifRecord func(kind string, qid uint64, e string, max, active, queued int)
 
 func vpGate[T any](point string, q *Queue[T], e *T) {
 	if f := VerifGate; f != nil {
@@ -46,8 +73,9 @@ func vpMulti[T any](kind string, e *T, lockI, i int) {
 	}
 }
 
-// When VERIF_PQ_TRACE names a file, every event is appended to it as one JSON line, with the
-// queue and the entry identified by their addresses. This records the repository's own tests.
+// When VERIF_PQ_TRACE names a file, every event is appended to it as one JSON line, with the queue
+// identified by VerifQueueID and the entry by its address (entries leave the monitor's state when
+// they are released, so address reuse is harmless). This records the repository's own tests.
 func init() {
 	fn := os.Getenv("VERIF_PQ_TRACE")
 	if fn == "" {
@@ -59,14 +87,15 @@ func init() {
 	}
 	var mu sync.Mutex
 	seq := 0
+	pid := os.Getpid()
 	enc := json.NewEncoder(f)
-	VerifEvent = func(kind string, q any, e any, max, active, queued int, locked bool) {
+	verifRecord = func(kind string, qid uint64, e string, max, active, queued int) {
 		mu.Lock()
 		defer mu.Unlock()
 		seq++
 		_ = enc.Encode(map[string]any{
-			"ev": kind, "q": fmt.Sprintf("%p", q), "p": fmt.Sprintf("%p", e),
-			"max": max, "act": active, "que": queued, "seq": seq, "pid": os.Getpid(),
+			"ev": kind, "q": fmt.Sprintf("%d.q%d", pid, qid), "p": e,
+			"max": max, "act": active, "que": queued, "seq": seq, "pid": pid,
 		})
 	}
 }
